@@ -14,3 +14,17 @@ package codecs
 //@ struct H265 guarded_by * class muxer: VPS, SPS, PPS
 //@ struct AV1 guarded_by * class muxer: SequenceHeader
 //@ struct VP9 guarded_by * class muxer: Width, Height, Profile, BitDepth, ChromaSubsampling, ColorRange
+
+// FromFMP4 builds codec objects of the client side: they are fresh and not yet shared
+//@ func FromFMP4
+//@   props C08 C13
+//@   role init
+//@   ensures result != nil ==> fresh(result)
+//@ end
+
+// ToFMP4 reads the parameters of a muxer track: called by the writer inside the critical section that
+// regenerates the init segment
+//@ func ToFMP4
+//@   props C08
+//@   role writer
+//@ end
